@@ -604,7 +604,7 @@ fn convert_class_names_and_rpx_in_block(input: &mut StepParser, ss: &mut StyleSh
                     }
                     Token::Function(func) => {
                         let func: &str = func;
-                        let is_math = func == "calc";
+                        let is_math = is_math_function(func);
                         let close = ss.append_nested_block(next.clone(), input);
                         if is_math {
                             convert_rpx_in_block(input, ss, Some(ConvertOptions { in_calc: true }));
@@ -652,6 +652,34 @@ struct ConvertOptions {
     in_calc: bool,
 }
 
+/// Whether the function is a CSS math function, in which `+` and `-` must be surrounded by whitespace.
+fn is_math_function(name: &str) -> bool {
+    matches!(
+        name.to_ascii_lowercase().as_str(),
+        "calc"
+            | "min"
+            | "max"
+            | "clamp"
+            | "round"
+            | "mod"
+            | "rem"
+            | "sin"
+            | "cos"
+            | "tan"
+            | "asin"
+            | "acos"
+            | "atan"
+            | "atan2"
+            | "pow"
+            | "sqrt"
+            | "hypot"
+            | "log"
+            | "exp"
+            | "abs"
+            | "sign"
+    )
+}
+
 fn convert_rpx_in_block(
     input: &mut StepParser,
     ss: &mut StyleSheetTransformer,
@@ -680,12 +708,14 @@ fn convert_rpx_in_block(
                     | Token::SquareBracketBlock
                     | Token::ParenthesisBlock => {
                         let close = ss.append_nested_block(next.clone(), input);
-                        convert_rpx_in_block(input, ss, None);
+                        convert_rpx_in_block(input, ss, Some(ConvertOptions { in_calc }));
                         ss.append_nested_block_close(close, input);
                     }
                     Token::Function(func) => {
                         let func: &str = func;
-                        let config = if func == "calc" {
+                        // the operands of a math function, and anything nested in one, keep the
+                        // whitespace around `+` and `-`
+                        let config = if in_calc || is_math_function(func) {
                             Some(ConvertOptions { in_calc: true })
                         } else {
                             None
